@@ -3,6 +3,7 @@ package main
 // Calls: builtins, conversions, contracts at call sites, inlining.
 
 import (
+	"os"
 	"regexp"
 	"fmt"
 	"go/ast"
@@ -528,6 +529,9 @@ func (x *Exec) inline(fi *FuncInfo, recv *Value, args []*Value, st *State, call 
 
 func (x *Exec) applyContract(c *Contract, fn *types.Func, recv *Value, args []*Value, st *State, call ast.Node) []*Value {
 	x.used[c.Key] = true
+	if !c.HasMod && os.Getenv("GOCV_FRAMEAUDIT") != "" {
+		fmt.Fprintf(os.Stderr, "FRAMEAUDIT callee=%s trusted=%v extern=%v caller=%s\n", c.Key, c.Trusted, c.Extern, x.fr().fi.Key)
+	}
 	sig := fn.Type().(*types.Signature)
 	sc := &SpecScope{names: map[string]*Value{}, pkg: fn.Pkg()}
 	if recv != nil {
@@ -598,6 +602,12 @@ func (x *Exec) applyContract(c *Contract, fn *types.Func, recv *Value, args []*V
 			}
 			break
 		}
+	}
+	if !c.HasMod && !c.Trusted && !c.Extern {
+		// A verified contract without a modifies clause has no checked frame: its callers may assume
+		// nothing about the heap after the call. (Trusted and extern contracts without the clause are
+		// assumed to modify nothing - part of what is trusted about them.)
+		(&specLoc{all: true}).havoc(x, st)
 	}
 	for _, m := range c.Modifies {
 		if v, ok := direct[m]; ok {
@@ -763,7 +773,7 @@ func (l *specLoc) keysAndRefs(x *Exec) [][2]any {
 	case l.all:
 		out = append(out, [2]any{"*", nil})
 	case l.ghost != nil && l.whole:
-		out = append(out, [2]any{"*", nil})
+		out = append(out, [2]any{"*" + l.key, nil})
 	case l.ghost != nil:
 		out = append(out, [2]any{l.key, l.ref})
 	case l.mapT != nil:
